@@ -26,7 +26,8 @@ THEOREMS = [
     'C03_async_generator_operations', 'C03_async_generator_full',
     'C03_generator_current',
     'C03_nonforwarding_wrapper_refuted', 'C03_nonforwarding_wrapper_witnesses', 'C03_nonforwarding_wrapper_partial',
-    'C03_metadata', 'C03_metadata_nonvacuous',
+    'C03_timer_harmless', 'C03_timer_harmless_kernprof', 'C03_timer_nonvacuous',
+    'C03_metadata_names', 'C03_metadata_partial', 'C03_metadata_refuted', 'C03_metadata_nonvacuous',
 ]
 LEVEL = 'proof'
 
@@ -36,7 +37,11 @@ F_ATHROW = 'C03-async-generator-athrow-aclose-not-forwarded'       # a regressio
 F_NEST = 'C03-second-profiler-valueerror'
 
 KINDS = ['gen', 'coro', 'agen']
-COQ_KIND = {'gen': 'KGen', 'coro': 'KCoro', 'agen': 'KAsync'}
+# 'tgen': a generator function marked @types.coroutine - for inspect (and for wrap_callable's dispatch on /repo) a
+# generator function, so the generator protocol applies (model: KGen); its result may ALSO be awaited (stream `await`)
+PKINDS = ['gen', 'coro', 'agen', 'tgen']
+COQ_KIND = {'gen': 'KGen', 'coro': 'KCoro', 'agen': 'KAsync', 'tgen': 'KGen'}
+F_TCORO = 'C03-types-coroutine-not-awaitable'
 THROWN = [1, 2, 3, 4, 7]
 GE = 3
 
@@ -112,16 +117,29 @@ def gen_protocol(tier, rnd):
     """list of (kind, table, ops); every triple is run unwrapped, under 'lp' and under 'cp'"""
     triples = []
     n_rand = 1500 if tier == 'quick' else 10000
-    for kind in KINDS:
-        for _ in range(n_rand):
+    for kind in PKINDS:
+        for _ in range(n_rand if kind != 'tgen' else n_rand // 5):
             triples.append((kind, rand_table(rnd), rand_ops(rnd, kind)))
     # exhaustive short op sequences over a few tables
     n_tab, maxlen = (4, 3) if tier == 'quick' else (24, 4)
-    for kind in KINDS:
-        for _ in range(n_tab):
+    for kind in PKINDS:
+        for _ in range(n_tab if kind != 'tgen' else max(1, n_tab // 4)):
             t = rand_table(rnd, 3)
             for ops in exhaustive_ops(maxlen):
                 triples.append((kind, t, ops))
+    return triples
+
+
+def gen_await(tier, rnd):
+    """(kind, table, ops) for the await path: the operations go to a native coroutine that awaits the callable's
+    result - how coroutine functions and @types.coroutine generator functions are used by other coroutines"""
+    triples = []
+    for kind in ('tgen', 'coro'):
+        for _ in range(150 if tier == 'quick' else 2500):
+            triples.append((kind, rand_table(rnd), rand_ops(rnd, 'coro')))
+        t = rand_table(rnd, 3)
+        for ops in exhaustive_ops(3 if tier == 'quick' else 4):
+            triples.append((kind, t, ops))
     return triples
 
 
@@ -153,6 +171,28 @@ def py_spec_protocol(kind, table, ops, wobs, robs):
         return (not coro_hyp(table, ops)) or erase(wobs) == robs
     w = erase(wobs)
     return w[0] == robs[0] and (not table_honours_close(table) or w[1] == robs[1])
+
+
+def py_spec_await(kind, table, ops, wobs, robs):
+    """await path (a coroutine awaits the callable's result): delegation by `await` has the two limits of
+    C03_coroutine whatever is awaited, so the same hypotheses decide whether the case is judged"""
+    return (not coro_hyp(table, ops)) or erase(wobs) == robs
+
+
+def classify_await(kind, ops, wobs, robs):
+    """signature of C03-types-coroutine-not-awaitable: a decorated @types.coroutine generator function is awaited;
+    the first operation that would start it raises TypeError (object generator can't be used in 'await'
+    expression) and the body never runs, where the original's body starts"""
+    if kind != 'tgen':
+        return None
+    w = erase(wobs)
+    for ws, rs in zip(w[0], robs[0]):
+        if ws == rs:
+            continue
+        if ws == [4006] and 100 in rs[:-1]:
+            return F_TCORO
+        return None
+    return None
 
 
 def classify_protocol(kind, ops, wobs, robs):
@@ -218,13 +258,13 @@ def pack_shards(rows, per=400, maxbytes=190000):
 
 
 # ----------------------------------------------------------------------------
-def run_protocol(impl, triples):
+def run_protocol(impl, triples, via='direct'):
     """returns list of records: kind, table, ops, ref (unwrapped obs), lp, cp (wrapped obs), how"""
     cases = []
     for j, (kind, table, ops) in enumerate(triples):
         how = 'method' if j % 3 == 2 else 'call'
         for prof in (None, 'lp', 'cp'):
-            cases.append(dict(kind=kind, table=table, ops=ops, prof=prof, how=how))
+            cases.append(dict(kind=kind, table=table, ops=ops, prof=prof, how=how, via=via))
     outs = []
     for chunk in core.chunks(cases, 6000):
         o = core.run_impl(impl, 'harness.drivers.c03', dict(protocol=chunk), timeout=1200)
@@ -232,7 +272,7 @@ def run_protocol(impl, triples):
     recs = []
     for j, (kind, table, ops) in enumerate(triples):
         r, a, b = outs[3 * j], outs[3 * j + 1], outs[3 * j + 2]
-        recs.append(dict(kind=kind, table=table, ops=ops, how=cases[3 * j]['how'],
+        recs.append(dict(kind=kind, table=table, ops=ops, how=cases[3 * j]['how'], via=via,
                          ref=flat(r['obs']), lp=flat(a['obs']), cp=flat(b['obs']),
                          leaked=[r['leaked'], a['leaked'], b['leaked']]))
     return recs
@@ -301,7 +341,7 @@ def coq_layers(ls):
 
 
 def rand_spec(rnd, n, kind=None):
-    return dict(kind=kind or rnd.choice(['func', 'func', 'gen', 'coro', 'agen']), sig=rnd.randrange(7), tag='t%d' % n,
+    return dict(kind=kind or rnd.choice(['func', 'func', 'func', 'gen', 'gen', 'coro', 'coro', 'agen', 'agen', 'tgen']), sig=rnd.randrange(7), tag='t%d' % n,
                 name=rnd.choice(['fn', 'compute', 'wrapper', 'f_%d' % n, 'Profile']),
                 doc=rnd.choice([None, 'doc %d' % n, 'Multi "quoted" line', '']),
                 fail=rnd.choice([0, 0, 0, 1, 8]))
@@ -352,7 +392,7 @@ def gen_extra(tier, rnd):
               for s in sorted(REG_SOURCES) for t in (0, 1, 2, 3) for a in (False, True)
               for v in ('add_function', 'add_callable', 'call') for e in (False, True)]
     reg = allreg if tier != 'quick' else rnd.sample(allreg, 288)
-    defer = [dict(kind=k, prof=p) for k in KINDS for p in ('lp', 'cp')]
+    defer = [dict(kind=k, prof=p) for k in PKINDS for p in ('lp', 'cp')]
     return dict(nest=gen_nest(tier, rnd), desc=desc, meta=meta, reg=reg, defer=defer)
 
 
@@ -378,6 +418,102 @@ def py_spec_meta(o):
     return 'driver_error' not in o and all(o['got'][k] == o['orig'][k] for k in META_KEYS) and o['got']['wrapped_is_orig'] in (True, False)
 
 
+def classify_meta(o):
+    """signature of C03-types-coroutine-not-awaitable on metadata: the original is a @types.coroutine generator
+    function, what the profiler returns is a plain generator function (flag CO_ITERABLE_COROUTINE lost), and
+    nothing else differs"""
+    if 'driver_error' in o:
+        return None
+    if o['orig']['kind'] == 'tgen' and o['got']['kind'] == 'gen' and \
+            all(o['got'][k] == o['orig'][k] for k in META_KEYS if k != 'kind'):
+        return F_TCORO
+    return None
+
+
+# ----------------------------------------------------------------------------
+# kern stream: decorated callables under the REAL kernprof.main with its interval timer (drivers/c03_kern.py)
+def gen_kern(tier, rnd):
+    cases = []
+    pool = [['call'], ['call'], ['call'], ['tick'], ['tick'], ['raise'], ['gstart'], ['gsend'], ['gsend'], ['gclose'],
+            ['costart'], ['cosend']]
+    for mode in ('b', 'l', 'plain'):
+        # call/tick only (these also go through the Coq model of the timer glue)
+        for n in range(0, 5 if tier == 'quick' else 7):
+            for bits in itertools.product((0, 1), repeat=n):
+                cases.append(dict(mode=mode, steps=[['tick'] if b else ['call', (i * 3 + 1) % 10] for i, b in enumerate(bits)]))
+        for _ in range(40 if tier == 'quick' else 600):
+            steps = []
+            for _ in range(rnd.randint(2, 9)):
+                st = list(rnd.choice(pool))
+                if st[0] in ('call', 'raise', 'gsend', 'cosend'):
+                    st.append(rnd.randint(0, 9))
+                elif st[0] == 'gstart':
+                    st.append(rnd.randint(1, 4))
+                steps.append(st)
+            cases.append(dict(mode=mode, steps=steps))
+    return cases
+
+
+def py_spec_kern(c, o):
+    """every step gives the same outcome on the decorated callable as on its undecorated twin; kernprof.main ends
+    normally, stops its timer and leaves no profiler holding the tool id"""
+    if 'driver_error' in o or o['steps'] is None:
+        return False
+    for st in o['steps']:
+        if st[0] == 'tick':
+            if st[1]:
+                return False
+        elif st[1] != st[2]:
+            return False
+    return o['main'] == 'ok' and o['timers'] == 1 and o['stopped'] and o['free'] and o['dumped']
+
+
+def kern_code(out):
+    if out[0] == 'ret' and isinstance(out[1], int):
+        return 1000 + out[1]
+    if out[0] == 'exc':
+        return 4000 + {'ValueError': 1, 'KeyError': 2}.get(out[1], 99)
+    return -1
+
+
+def eval_kern(cases, outs, res, cov, use_coq=True):
+    rows, where = [], []
+    for n, (c, o) in enumerate(zip(cases, outs)):
+        if 'driver_error' in o:
+            res.infra_errors.append('kern driver error: ' + o['driver_error'] + o.get('tb', '')[-300:])
+            continue
+        if c['mode'] in ('b', 'l') and all(st[0] in ('call', 'tick') for st in c['steps']) and o['steps'] is not None:
+            steps = core.coq_list(['STick' if st[0] == 'tick' else 'SCall %d' % st[1] for st in c['steps']])
+            impl = core.coq_list([str(kern_code(st[2])) for st in o['steps'] if st[0] == 'call'])
+            rows.append('(kcase_ok %d %s %s)' % (0 if c['mode'] == 'l' else 1, steps, impl))
+            where.append(n)
+    coq_fail = set()
+    if use_coq and rows:
+        kb, kspans = pack_shards(rows)
+        for k, (sres, (lo, hi)) in enumerate(zip(core.run_shards('c03k', HEADER, kb), kspans)):
+            if sres[0] != 'ok' or len(sres[1]) != 2:
+                res.infra_errors.append('kern shard %d failed: %s' % (k, str(sres[1])[-600:]))
+                continue
+            for i in sres[1][0]:
+                n = where[lo + i]
+                res.mismatches.append(dict(case=dict(stream='kern', **cases[n]), impl=outs[n],
+                                           model='differs: Wrap/GenWrapFun.v (run_steps / dump_cprofile / dump_line_profiler)'))
+            coq_fail |= {where[lo + i] for i in sres[1][1]}
+    nfail = 0
+    for n, (c, o) in enumerate(zip(cases, outs)):
+        if 'driver_error' in o:
+            continue
+        if py_spec_kern(c, o) and n not in coq_fail:
+            continue
+        nfail += 1
+        if nfail <= 20:
+            res.spec_fails.append(dict(case=dict(stream='kern', **c), impl=o,
+                                       why='under kernprof with its interval timer a decorated callable answers differently from the '
+                                           'undecorated one (or kernprof.main does not end cleanly)', finding=None))
+    cov['kern_spec_fails'] = nfail
+    cov['kern_cases_in_coq_model'] = len(rows)
+
+
 def py_spec_reg(o):
     if 'driver_error' in o:
         return False
@@ -387,7 +523,7 @@ def py_spec_reg(o):
     return ok
 
 
-FKIND = {'func': 'FPlain', 'gen': 'FGenerator', 'coro': 'FCoroutine', 'agen': 'FAsyncGenerator'}
+FKIND = {'func': 'FPlain', 'gen': 'FGenerator', 'coro': 'FCoroutine', 'agen': 'FAsyncGenerator', 'tgen': 'FGenCoroutine'}
 
 
 def coq_fmeta(m, sig_ids):
@@ -408,6 +544,7 @@ CANON = [
     ('agen', [[['Y', 1, False, 1]] + [['RR']] * 5, [['R', 0, False], ['Y', 5, False, 1]] + [['RR']] * 4], [['n'], ['t', 1]]),  # athrow
     ('agen', [[['Y', 1, False, 1]] + [['RR']] * 5, [['R', 0, False], ['RR'], ['RR'], ['Y', 2, False, 1], ['RR'], ['RR']]], [['n'], ['c']]),  # aclose
 ]
+CANON_AWAIT = [('tgen', [[['Y', 1, False, 1]] + [['RR']] * 5, [['R', 7, True]] + [['RR']] * 5], [['n'], ['s', 2]])]
 CANON_NEST = [dict(layers=[['wrap', 0], ['wrap', 1]], inner=['ret', 7], kind='func'),
               dict(layers=[['with', 2], ['wrap', 0]], inner=['ret', 7], kind='func'),
               dict(layers=[['with', 0], ['wrap', 2]], inner=['ret', 7], kind='gen')]
@@ -444,7 +581,7 @@ def eval_protocol(recs, res, cov, use_coq=True):
     cov['protocol_shards'] = len(bodies)
     if mism and not res.infra_errors:
         # diagnostic only: does the implementation behave like the OTHER wrapper variant?
-        wrapped_gen = [i for i, (j, which) in enumerate(idx) if which != 'ref' and recs[j]['kind'] in ('gen', 'agen')]
+        wrapped_gen = [i for i, (j, which) in enumerate(idx) if which != 'ref' and recs[j]['kind'] in ('gen', 'agen', 'tgen')]
         if set(mism) <= set(wrapped_gen):
             rrows = []
             for i in wrapped_gen:
@@ -558,13 +695,14 @@ def eval_extra(extra, out, res, cov, use_coq=True):
                 continue
             if spec(o) and n not in coqfail:
                 continue
-            per[None] = per.get(None, 0) + 1
-            if per[None] <= 50:
+            fid = classify_meta(o) if name == 'meta' else None
+            per[fid] = per.get(fid, 0) + 1
+            if per[fid] <= (3 if fid else 50):
                 res.spec_fails.append(dict(case=dict(stream=name, **c), impl=o,
                                            why={'desc': 'descriptor/partial wrapped by the profiler behaves differently from the original on some access path',
                                                 'meta': 'name / doc / signature / kind / attributes not preserved',
                                                 'reg': 'behaviour of a function changed by registering it (add_function / add_callable / decoration)'}[name],
-                                           finding=None))
+                                           finding=fid))
     cov['extra_spec_fails_by_finding'] = {str(k): v for k, v in per.items()}
 
 
@@ -608,12 +746,27 @@ def run(tier, seed):
                 else:
                     if spec(o):
                         continue
-                    fid = None
+                    fid = classify_meta(o) if name == 'meta' else None
                 cand = dict(case=dict(stream=name, **c), impl=o, why='%s stream: differs from the original (search)' % name, finding=fid)
                 if fid is None:
                     return cand
                 if fid not in known and best is None:
                     best = cand
+        for r in run_protocol(impl, CANON_AWAIT + gen_await('quick', r2), via='await'):
+            for which in ('lp', 'cp'):
+                if not py_spec_await(r['kind'], r['table'], r['ops'], r[which], r['ref']):
+                    fid = classify_await(r['kind'], r['ops'], r[which], r['ref'])
+                    cand = dict(case=dict(stream='await', kind=r['kind'], table=r['table'], ops=r['ops'], prof=which, how=r['how']),
+                                impl=dict(wrapped=r[which], original=r['ref']), why='awaiting the decorated callable differs (search)', finding=fid)
+                    if fid is None:
+                        return cand
+                    if fid not in known and best is None:
+                        best = cand
+        k2 = gen_kern('quick', r2)
+        ko2 = core.run_impl(impl, 'harness.drivers.c03', dict(kern=k2, tmp=str(core.SCRATCH_ROOT / 'tmp' / 'c03kern')), timeout=1200)['kern']
+        for c, o in zip(k2, ko2):
+            if 'driver_error' not in o and not py_spec_kern(c, o):
+                return dict(case=dict(stream='kern', **c), impl=o, why='decorated callable under kernprof -i differs (search)', finding=None)
         return best
     res.search = search
 
@@ -629,6 +782,25 @@ def run(tier, seed):
                                    why='a profiler was left enabled after the wrapped object was dropped', finding=None))
     eval_protocol(recs, res, cov, use_coq=model_ok)
     eval_extra(extra, out, res, cov, use_coq=model_ok)
+    # await path (python-side predicate only: wrapped-awaited vs original-awaited)
+    arecs = run_protocol(impl, CANON_AWAIT + gen_await(tier, rnd), via='await')
+    per_a = {}
+    for r in arecs:
+        for which in ('lp', 'cp'):
+            if py_spec_await(r['kind'], r['table'], r['ops'], r[which], r['ref']) and not any(r['leaked']):
+                continue
+            fid = classify_await(r['kind'], r['ops'], r[which], r['ref'])
+            per_a[fid] = per_a.get(fid, 0) + 1
+            if per_a[fid] <= (3 if fid else 30):
+                res.spec_fails.append(dict(case=dict(stream='await', kind=r['kind'], table=r['table'], ops=r['ops'], prof=which, how=r['how']),
+                                           impl=dict(wrapped=r[which], original=r['ref']),
+                                           why='awaiting the decorated callable differs from awaiting the original', finding=fid))
+    cov['await_spec_fails_by_finding'] = {str(k): v for k, v in per_a.items()}
+    # kernprof's interval timer
+    tmp = core.SCRATCH_ROOT / 'tmp' / 'c03kern'
+    kcases = gen_kern(tier, rnd)
+    kouts = core.run_impl(impl, 'harness.drivers.c03', dict(kern=kcases, tmp=str(tmp)), timeout=1800)['kern']
+    eval_kern(kcases, kouts, res, cov, use_coq=model_ok)
     # unknown first, so that a new violation is what gets reported
     res.spec_fails.sort(key=lambda s: 0 if s['finding'] is None else 1)
 
@@ -641,32 +813,35 @@ def run(tier, seed):
             for which in ('ref', 'lp', 'cp'):
                 nontrivial.add((r['kind'], json.dumps(r['table']), json.dumps(r['ops']), which))
         send_only = all(o[0] in ('n', 's') for o in r['ops'])
-        if r['kind'] in ('gen', 'agen') and send_only:
+        if r['kind'] in ('gen', 'agen', 'tgen') and send_only:
             hyp_partial += 1
-        if r['kind'] in ('gen', 'agen') and table_honours_close(r['table']):
+        if r['kind'] in ('gen', 'agen', 'tgen') and table_honours_close(r['table']):
             hyp_repaired += 1
         if r['kind'] == 'coro':
             if coro_hyp(r['table'], r['ops']):
                 hyp_coro += 1
             else:
                 hyp_coro_out += 1
-    n_eval = 3 * len(recs) + sum(len(extra[k]) for k in ('nest', 'desc', 'meta', 'reg'))
+    n_eval = 3 * len(recs) + 3 * len(arecs) + len(kcases) + sum(len(extra[k]) for k in ('nest', 'desc', 'meta', 'reg'))
     two_prof = sum(1 for c in extra['nest'] if len({p for _, p in c['layers']}) >= 2)
     exh = (3, 2) if tier == 'quick' else (4, 3)
     cov.update(
         evaluations=n_eval,
-        distinct_nontrivial=len(nontrivial) + two_prof + len(extra['desc']) + len(extra['reg']),
+        distinct_nontrivial=len(nontrivial) + two_prof + len(extra['desc']) + len(extra['reg'])
+        + len({json.dumps(c) for c in kcases if any(st[0] == 'tick' for st in c['steps']) and len(c['steps']) > 1}),
         rule='protocol cases (kind x body table x op sequence x {unwrapped, LineProfiler, ContextualProfile}) count as non-trivial '
              'when the op sequence is non-empty and the body is resumed at least once, distinct by all four components; nest cases '
-             'when two different profiler instances are involved; every descriptor term and registration case is counted '
+             'when two different profiler instances are involved; kern scenarios when they contain a timer tick and another step; every descriptor term and registration case is counted '
              '(each walks >= 7 access paths / argument lists)',
         exhaustive=True,
         exhaustive_scope='op sequences of length <= %d over {next, send 2, throw ValueError, throw GeneratorExit, close} for %d random tables '
                    '(<= 3 states) per kind; all nestings of depth <= %d over {decorate, with} x 4 profiler instances; '
                    '%s registration configurations' % (exh[0], 4 if tier == 'quick' else 24, exh[1],
                                                        'all 576' if tier != 'quick' else '288 sampled of 576'),
-        streams=dict(protocol_triples=len(recs), protocol_runs=3 * len(recs), nest=len(extra['nest']), desc=len(extra['desc']),
-                     meta=len(extra['meta']), reg=len(extra['reg'])),
+        streams=dict(protocol_triples=len(recs), protocol_runs=3 * len(recs), await_runs=3 * len(arecs), kern=len(kcases),
+                     nest=len(extra['nest']), desc=len(extra['desc']), meta=len(extra['meta']), reg=len(extra['reg'])),
+        kern_modes=_hist(c['mode'] for c in kcases), kern_step_kinds=_hist(st[0] for c in kcases for st in c['steps']),
+        kern_ticks_at_count_zero_then_call=sum(1 for c in kcases if any(a[0] == 'tick' and b[0] in ('call', 'gsend', 'gstart') for a, b in zip(c['steps'], c['steps'][1:]))),
         kinds=_hist(r['kind'] for r in recs),
         op_kinds=_hist(o[0] + (str(o[1]) if o[0] == 't' else '') for r in recs for o in r['ops']),
         ops_length=_hist(len(r['ops']) for r in recs),
@@ -720,13 +895,26 @@ def replay(path):
         print(json.dumps(dict(case=c, original=r['ref'], wrapped=r[which], holds=ok,
                               finding=None if ok else classify_protocol(c['kind'], c['ops'], r[which], r['ref'])), indent=1))
         return 0 if ok else 1
+    if stream == 'await':
+        r = run_protocol(impl, [(c['kind'], c['table'], c['ops'])], via='await')[0]
+        which = c.get('prof') or 'lp'
+        ok = py_spec_await(c['kind'], c['table'], c['ops'], r[which], r['ref']) and not any(r['leaked'])
+        print(json.dumps(dict(case=c, original=r['ref'], wrapped=r[which], holds=ok,
+                              finding=None if ok else classify_await(c['kind'], c['ops'], r[which], r['ref'])), indent=1))
+        return 0 if ok else 1
     cc = {k: v for k, v in c.items() if k != 'stream'}
+    if stream == 'kern':
+        tmp = core.SCRATCH_ROOT / 'tmp' / 'c03kern'
+        o = core.run_impl(impl, 'harness.drivers.c03', dict(kern=[cc], tmp=str(tmp)))['kern'][0]
+        ok = py_spec_kern(cc, o)
+        print(json.dumps(dict(case=c, impl=o, holds=ok), indent=1, default=str))
+        return 0 if ok else 1
     o = core.run_impl(impl, 'harness.drivers.c03', dict(extra={stream: [cc]}))['extra'][stream][0]
     if stream == 'nest':
         ok = py_spec_nest(cc, o)
         extra = dict(expected=nest_expected(cc), finding=None if ok else classify_nest(cc, o))
     else:
         ok = {'desc': py_spec_desc, 'meta': py_spec_meta, 'reg': py_spec_reg}[stream](o)
-        extra = {}
+        extra = dict(finding=classify_meta(o)) if (stream == 'meta' and not ok) else {}
     print(json.dumps(dict(case=c, impl=o, holds=ok, **extra), indent=1, default=str))
     return 0 if ok else 1
